@@ -387,4 +387,10 @@ theorem install_abs (s : Side) (hi : HostInfo) (l : List HostInfo) (h : s.tunnel
   simp only [h, List.length_cons, List.length_map]
   split <;> simp [List.map_dropLast]
 
+theorem install_pdl (s : Side) (t : Tun) : (s.install t).pdl = s.pdl.filter (· != t) := by
+  unfold Side.install; dsimp only; split <;> rfl
+
+theorem install_pending (s : Side) (t : Tun) : (s.install t).pending = s.pending := by
+  unfold Side.install; dsimp only; split <;> rfl
+
 end Nebula.Lemmas.HsSim
